@@ -129,6 +129,8 @@ def s2(prog, ctx, fns, exc):
             inst = "%s: last character via %s" % (f.name, render(x))
             if wp is None:
                 ctx.ok("S2", inst, x.where, "`%s` is known to be non-empty on every consistent path" % X)
+            elif _advanced_past_char(f, rd, X, x):
+                ctx.ok("S2", inst, x.where, "`%s` was advanced one past a character just tested (%s[-1] exists and is not a blank)" % (X, X))
             elif key in tol:
                 ctx.ok("S2", inst, x.where, "tolerated: " + tol[key])
             else:
@@ -136,6 +138,35 @@ def s2(prog, ctx, fns, exc):
                          "for an empty `%s` the expression addresses the byte BEFORE the buffer (strlen - 1 wraps around): out-of-bounds read/write" % X,
                          key="lastchar:" + key, path=cfg.describe_path(wp)[-6:])
     ctx.floor("C04.S2 last-character expressions", n, 4)
+
+
+def _advanced_past_char(f, rd, X, use):
+    """The string variable X was advanced one position past a character that was just tested to be a particular
+    non-NUL character (e.g. `if (name[0] == '[') { name++; ...`): X[-1] then exists and is that character, which
+    stops a backward walk over blanks and makes `X + strlen(X) - 1` land inside the buffer even for an empty rest."""
+    cfg = f.cfg
+    root = X.split("[")[0].split("->")[0].strip("*& ")
+    sources = {root}
+    for d in rd.defs:
+        if d.var == root and d.kind in ("assign", "init") and d.rhs is not None and d.rhs.strip().k == "DeclRefExpr":
+            sources.add(render(d.rhs))
+    for d in rd.defs:
+        if d.var != root or d.node is None:
+            continue
+        adv = d.kind == "update" and d.node.k == "UnaryOperator" and d.node.j.get("op") == "++"
+        if d.kind in ("assign", "init") and d.rhs is not None:
+            r = d.rhs.strip()
+            if r.k == "BinaryOperator" and r.j.get("op") == "+" and r.children[1].const_value() == 1 and r.children[0].strip().k == "DeclRefExpr":
+                adv = True
+                sources.add(render(r.children[0]))
+        if not adv or not cfg.node_dominates(d.node, use):
+            continue
+        ok, cut = cfg.all_paths_cut(cfg.block_of(d.node), lambda lit, b, i: lit is not None and lit.kind == "eq" and lit.pol and any(
+            render(a) in ["%s[0]" % s2 for s2 in sources] + ["*%s" % s2 for s2 in sources] and b2.const_value() not in (None, 0)
+            for a, b2 in ((lit.lhs, lit.rhs), (lit.rhs, lit.lhs))))
+        if ok and cut:
+            return True
+    return False
 
 
 def _is_len_of(node, X, f, rd):
@@ -183,8 +214,18 @@ def s3(prog, ctx, fns, exc):
                 origin = ""
             key = "%s:%s:%s" % (f.name, ctext, origin)
             inst = "%s: backward walk `while (%s) %s--`" % (f.name, ctext, v)
+            sentinel = False
+            try:
+                if not bounded and origin:
+                    m0 = re.match(r"^\(?([\w.$]+) \+ strlen\(([\w.$]+)\)\)? - 1$", origin) or re.match(r"^([\w.$]+) \+ strlen\(([\w.$]+)\) - 1$", origin)
+                    if m0 and m0.group(1) == m0.group(2):
+                        sentinel = _advanced_past_char(f, f._rd3, m0.group(1), cond)
+            except Exception:
+                sentinel = False
             if bounded:
                 ctx.ok("S3", inst, w.where, "the condition carries a lower bound for %s" % v)
+            elif sentinel:
+                ctx.ok("S3", inst, w.where, "walk starts at the end of a string that was advanced one past a tested non-blank character: that character stops it")
             elif key in tol and _exception_holds(prog, f, key):
                 ctx.ok("S3", inst, w.where, "tolerated: " + tol[key])
             elif key in tol:
@@ -311,7 +352,7 @@ def s8(prog, ctx, fns, exc):
                 inc = w.child("inc")
                 if inc is not None and cond is not None:
                     v, step = loops._step_of(inc)
-                    if v and step > 0 and re.search(r"(^|[^\w])\*%s( |$|\))" % re.escape(v), ctext) and ctext.startswith("*%s" % v):
+                    if v and step > 0 and (ctext.startswith("*%s" % v) or ctext.startswith("(*%s" % v) or ctext.startswith("((*%s" % v)):
                         ctx.ok("S8", inst, w.where, "pointer scan: stops at the terminating NUL, %s++ every round" % v)
                         continue
                 if key in tol:
@@ -321,14 +362,14 @@ def s8(prog, ctx, fns, exc):
                 continue
             # while / do loops: find the scanned variable
             key = "%s:%s" % (f.name, ctext)
-            m = re.search(r"\*(?:\+\+|--)?([A-Za-z_]\w*)(?:\+\+|--)?", ctext) or re.search(r"(\w+)\[(\w+)\]", ctext)
+            m = re.search(r"\*(?:\+\+|--)?([A-Za-z_][\w$.]*)(?:\+\+|--)?", ctext) or re.search(r"([\w$.]+)\[([\w$.]+)\]", ctext)
             if m is None:
                 if key in tol:
                     ctx.ok("S8", inst, w.where, "tolerated: " + tol[key])
                 else:
                     ctx.inconclusive("S8", inst, w.where, "condition `%s` not recognised" % ctext)
                 continue
-            v = m.group(2) if m.re.pattern.startswith("(\\w+)\\[") else m.group(1)
+            v = m.group(2) if m.re.pattern.startswith("([") else m.group(1)
             in_cond = bool(re.search(r"(\+\+|--)%s|%s(\+\+|--)" % (re.escape(v), re.escape(v)), ctext))
             # does every way round the loop move v ?
             adv_blocks = set()
@@ -348,7 +389,8 @@ def s8(prog, ctx, fns, exc):
             stops_at_end = ("*%s" % v in ctext) or ("[%s]" % v in ctext)
             nul_ok = True
             # a scan comparing against a specific character does not stop at NUL by itself
-            if re.search(r"\*(\+\+)?%s(\+\+)? != '" % re.escape(v), ctext):
+            mm = re.search(r"\*(\+\+)?%s(\+\+)? != ('[^']*'|\d+)" % re.escape(v), ctext)
+            if mm and mm.group(3) not in ("'\\x00'", "0", "'\\0'"):
                 nul_ok = False
             backward = bool(re.search(r"--%s|%s--" % (re.escape(v), re.escape(v)), ctext)) or any(
                 x.k == "UnaryOperator" and x.j.get("op") == "--" and render(x.children[0]) == v for x in (body.walk() if body is not None else []))
